@@ -133,18 +133,21 @@ class RuntimeAssertionFeedback(AssertionFeedback):
         right.set_report(self.report)
         # Get contexts
         contexts = self.get_sandbox_contexts([left, right])
-        # Calculate the context_message
-        if kwargs.get('context') is False:
+        # Calculate the context_message (like the explanation below, these
+        # keywords word the message; they are not arguments of the condition)
+        context = kwargs.pop('context', None)
+        if context is False:
             context_message = ""
-        elif kwargs.get('context') is not None:
-            context_message = kwargs['context']
+        elif context is not None:
+            context_message = context
         else:
             context_message = format_contexts(contexts, self.report.format)
         # Calculate the assertion_message
-        if kwargs.get('assertion') is False:
+        assertion = kwargs.pop('assertion', None)
+        if assertion is False:
             assertion_message = ""
-        elif kwargs.get('assertion') is not None:
-            assertion_message = kwargs['assertion'] + "\n"
+        elif assertion is not None:
+            assertion_message = assertion + "\n"
         else:
             assertion_message = self.format_assertion(left, right, contexts)
         # Calculate explanation (a field of the message, not an argument of
